@@ -104,6 +104,28 @@ def r1_case_fold_before_keying(ctx: Ctx) -> None:
     ctx.check(any(unparse(r.value).startswith("int(") for r in walk_no_nested(en.node) if isinstance(r, ast.Return)), "eval_number:int()", "digits are read by int(), which ignores letter case")
 
 
+def mnemonic_followers(ctx: Ctx) -> None:
+    """three letters are a mnemonic only when followed by a character that can end one: blank, tab, newline, end of input, `.`, `;`"""
+    ao = ctx.repo.func(SST, "accept_opcode")
+    followers = None
+    from ..match import canon as _cn16, literal_binding as _lb16
+
+    for n in walk_no_nested(ao.node):
+        # `<the character after the three letters> in <set>`: the set may be a tuple / list / set display, or a string of characters
+        if isinstance(n, ast.Compare) and isinstance(n.ops[0], (ast.In, ast.NotIn)) and (".peek(" in _cn16(ao.node, n.left) + unparse(n.left) or unparse(n.left) == "is_ws"):
+            coll = n.comparators[0]
+            if isinstance(coll, ast.Name):
+                coll = _lb16(ao, coll.id) or coll
+            if isinstance(coll, (ast.Tuple, ast.List, ast.Set)):
+                followers = {("EOF" if const_str(e) == "\0" else const_str(e)) if const_str(e) is not None else unparse(e) for e in coll.elts}
+            elif isinstance(coll, ast.Constant) and isinstance(coll.value, str):
+                followers = {"EOF" if ch == "\0" else ch for ch in coll.value}
+    if followers is None:
+        raise AnalysisError("accept_opcode: the set of characters that may follow a mnemonic was not found")
+    need = {" ", "\t", "\n", ".", ";", "EOF"}
+    ctx.check(need <= followers, "accept_opcode:followers", f"a mnemonic may be followed by space, tab, newline, end of input, '.' (size suffix) or ';' (comment); missing {sorted(need - followers)}")
+
+
 def r2_skip_sets(ctx: Ctx) -> None:
     li = ctx.repo.func(SST, "lex_initial")
     first = li.node.body[0] if not (isinstance(li.node.body[0], ast.Expr) and isinstance(li.node.body[0].value, ast.Constant)) else li.node.body[1]
@@ -184,15 +206,7 @@ def r2_skip_sets(ctx: Ctx) -> None:
         ctx.count("lookaheads")
         ctx.check(not bad, f"lex_operand:space-skip-before `{glo.nodes[ln].text()[:30]}`",
                   "after every consumed piece of the operand, spaces are skipped before the next bracket / comma is looked for (`(0x03,s ),y` == `(0x03,s),y`)")
-    ao = ctx.repo.func(SST, "accept_opcode")
-    followers = None
-    for n in walk_no_nested(ao.node):
-        if isinstance(n, ast.Compare) and isinstance(n.ops[0], ast.In) and unparse(n.left) == "is_ws" and isinstance(n.comparators[0], (ast.Tuple, ast.List, ast.Set)):
-            followers = {const_str(e) if const_str(e) is not None else unparse(e) for e in n.comparators[0].elts}
-    if followers is None:
-        raise AnalysisError("accept_opcode: the set of characters that may follow a mnemonic was not found")
-    need = {" ", "\t", "\n", ".", ";", "EOF"}
-    ctx.check(need <= followers, "accept_opcode:followers", f"a mnemonic may be followed by space, tab, newline, end of input, '.' (size suffix) or ';' (comment); missing {sorted(need - followers)}")
+    mnemonic_followers(ctx)
     le = ctx.repo.func(SST, "lex_expression")
     lp = [n for n in le.node.body if isinstance(n, (ast.While, ast.For))]
     if len(lp) != 1:
